@@ -25,9 +25,9 @@ RULE = (
     "random histories (60-150 commands) over context trees up to depth 5 / 12 simultaneously open contexts / 2 roots; children "
     "constructed with explicit or implicit parent, entered immediately or later (after the parent has changed); resources under 0-3 "
     "types from a pool of 6 classes (incl. a subclass pair) and names from a pool of 3 (+ invalid ones); sync/async factories with 1-3 types; "
+    "lookups through 6 API paths. "
     "Short-lived contexts with a foreign explicit parent are entered and left inside another context's task; factories may build instances of exactly another pool class. "
-    "lookups through 6 API paths. Non-trivial: >= 3 contexts and > 3 distinct model states; distinct = (tree shape, set of model-state hashes)."
-)
+    "Non-trivial: >= 3 contexts and > 3 distinct model states; distinct = (tree shape, set of model-state hashes).")
 DECIDING = {
     "visible_set_comparisons": "whole-tree visible-set comparisons performed",
     "entered_after_parent_changed": "child constructed early and entered later",
